@@ -242,6 +242,14 @@ def shard(idx, n, tier, seed, binary):
                                                          "tla": [["t", "code", "1 + 1"]]}))
                 variants.append(("tla-body-str", "legacy", {"op": "eval", "code": "function(t) local unused = t; " + src,
                                                             "tla": [["t", "str", "x"]]}))
+                # top-level function whose defaults refer to the passed argument and to each other
+                tl = ("fn", [("t", None), ("u", ("arr", [V("t"), N(7)])), ("w", ("bin", "+", V("v"), N(1))), ("v", ("index", V("u"), N(0)))],
+                      ("obj", [("field", ("fixed", "p"), False, ":", None, ast), ("field", ("fixed", "uvw"), False, ":", None, ("arr", [V("u"), V("v"), V("w")]))]))
+                rt = reference(("apply", tl, [], [("t", N(2))], False))
+                gt, _ = observe(wd, {"op": "eval", "code": jast.to_source(tl, guard_unary=True), "tla": [["t", "code", "1 + 1"]]})
+                acc.inc("evaluations")
+                if rt[0] != "abstain":
+                    compare(acc, "tla-defaults", jast.to_source(tl, guard_unary=True), rt, gt, {"variant": "tla-defaults", "tla": "t=1+1"})
             first = None
             allok = True
             for vname, pname, job in variants:
